@@ -314,7 +314,7 @@ def generic_core_check(prop, tier, replay, level, mc_list, sim_list, go_tests, i
         env = dict(VERIF_IN=ind, VERIF_OUT=outd, CORE_RUNS=120 if thorough else 24, CORE_STEPS=1500 if thorough else 600)
         env.update(extra_env or {})
         go_core(scr, go_tests, env)
-        names = [n for n in ("core_replay", "core_drive", "core_clean", "core_stall", "core_pairs") if os.path.exists(os.path.join(outd, n + ".ndjson"))]
+        names = [n for n in ("core_replay", "core_drive", "core_clean", "core_stall", "core_pairs", "core_fates") if os.path.exists(os.path.join(outd, n + ".ndjson"))]
         summarize(v, outd, names)
         # 5. TV
         for n in names:
@@ -480,16 +480,19 @@ def check_c02(tier, replay):
                 ("fastcc", sim_cfg("fastcc", 100, ticks="{1, 10, 30}")), ("wnd1", sim_cfg("wnd1", 100)),
                 ("outage", sim_cfg("stream", 60, ticks="{100, 10000, 60000}", maxtime=3000000, drop=12))]
     return generic_core_check(
-        "C02", tier, replay, "model_checking", mc, sim, "TestCoreReplay$|TestCoreDrive$", inv, known_map=known, known_mc=kmc,
+        "C02", tier, replay, "model_checking", mc, sim, "TestCoreReplay$|TestCoreDrive$|TestCoreFates$", inv, known_map=known, known_mc=kmc,
         rule=("TLC explores every fate assignment within the fault budget; at any reachable state the network may heal, after which the "
               "schedule is deterministic (deliver in order, read, flush both ends every interval) and the exact timed model must be "
               "drained within HealBound (a wedge shows as a bound violation; no liveness abstraction is needed because the healed "
               "continuation is deterministic). On the code every replayed behaviour and every random lossy run (loss up to 40 %, "
               "duplicates, reordering, outages to 60 s, both drives) ends with the same settling phase; the monitors require "
-              "Drained within the bound computed by TLC from the state logged at the heal instant. Non-trivial as C01"),
+              "Drained within the bound computed by TLC from the state logged at the heal instant. In addition every fate vector in "
+              "{deliver, drop, duplicate, hold-until-heal}^K over the first K datagrams of a one-directional transfer (no reverse "
+              "data, so a lost ACK is not healed by piggy-backed una) is executed on the real code for three configurations and "
+              "both drives (K=4 quick, 6 thorough). Non-trivial as C01 / fate vector with at least one fault"),
         assumptions=["genuine peers", "the reader keeps reading after the heal", "bound = armed retransmission waits + probe back-off + "
                      "(segments+4)*(3*rto+4*interval) per endpoint (generous by design)"],
-        extra_env=dict(CORE_FORGE=0, CORE_SETTLE=1), depth=100)
+        extra_env=dict(CORE_FORGE=0, CORE_SETTLE=1, FATES_K=6 if tier == "thorough" else 4), depth=100)
 
 
 # C03
